@@ -83,7 +83,11 @@ for k, (h, s) in enumerate(recs):
     pad = "-" * (width - len(s))
     rows.append((h, (pad + s) if (alt and k % 2) else (s + pad)))
 if mode == "reorder":
-    rows = rows[::-1]
+    perm = os.environ.get("VF_FAKE_PERM")
+    if perm:
+        rows = [rows[int(k)] for k in perm.split(",") if int(k) < len(rows)]
+    else:
+        rows = rows[::-1]
 if mode == "missing":
     rows = rows[:-1]
 text = "".join(">%s\n%s\n" % (h, r) for h, r in rows)
